@@ -219,6 +219,10 @@ func c08(tier string) []*explore.Scenario {
 		// the context handed to Serve has a deadline itself: later than every caller's, and in the middle of them
 		out = append(out, c08EndToEndS(stream, 0, false, 20000*time.Hour), c08EndToEndS(stream, 500*time.Microsecond, false, 30*time.Minute))
 	}
+	// several calls under one context (same absolute deadline), time passing in between
+	for _, stream := range []bool{false, true} {
+		out = append(out, c08SharedContext(stream, 5*time.Second, 400*time.Millisecond, 4), c08SharedContext(stream, time.Hour, 7*time.Minute, 5), c08SharedContext(stream, 300*time.Hour, 31*time.Hour, 4))
+	}
 	// requests that wait for a worker of the unary pool (8 per connection) before their handler starts
 	qto := []time.Duration{30 * time.Second, time.Hour, 99999999 * time.Second, 5000 * time.Hour}
 	out = append(out, c08Queued(7, 400*time.Millisecond, qto), c08Queued(8, 400*time.Millisecond, qto), c08Queued(12, 3*time.Second, qto), c08Queued(8, 0, qto))
@@ -539,6 +543,50 @@ func c08Queued(busy int, wait time.Duration, timeouts []time.Duration) *explore.
 				}
 			}
 			vsched.Count("inputs", int64(len(timeouts)))
+		},
+	}
+}
+
+// c08SharedContext: several calls, `gap` apart, under ONE context (the same absolute deadline):
+// a batch, a retry loop, contexts derived from one parent. Each handler's deadline is within
+// [caller's - 1ms, caller's + transit] - the header is relative, so it must shrink from call to call.
+func c08SharedContext(stream bool, total, gap time.Duration, calls int) *explore.Scenario {
+	fam := "C08/shared-context"
+	return &explore.Scenario{
+		Name: fmt.Sprintf("C08/shared-context/stream=%v/deadline=%v/gap=%v/calls=%d", stream, total, gap, calls), Family: fam, Prop: "C08", Bound: 0, Horizon: time.Nanosecond,
+		Run: func() {
+			w := env.NewWorld()
+			d := env.NewDirect(w, env.DirectOpts{Pipe: env.PipeOpts{Cap: 64}})
+			vsched.Settle()
+			ctx, cancel := context.WithTimeout(context.Background(), total)
+			defer cancel()
+			callerDl, _ := ctx.Deadline()
+			for i := 0; i < calls; i++ {
+				tag := fmt.Sprintf("c%d", i)
+				var r *env.Rec
+				if stream {
+					r = w.Rec(tag, "Bidi")
+					w.Handlers[tag] = func(r *env.Rec, ss grpc.ServerStream) error { return nil }
+					vsched.GoNamed("caller-"+tag, func() { w.Open(d.CC, ctx, r) })
+				} else {
+					r = w.Rec(tag, "Unary")
+					vsched.GoNamed("caller-"+tag, func() { w.CallUnary(d.CC, ctx, r, "x") })
+				}
+				vsched.Settle()
+				if r.HStarts != 1 {
+					vsched.Fail(fam+"|handler-not-run", "call %d under the shared context: the handler ran %d times (err %v)", i, r.HStarts, r.CErr)
+					return
+				}
+				dl, has := r.HCtx.Deadline()
+				vsched.Obs("call %d at +%v: handler deadline %v (caller's %v)", i, time.Duration(i)*gap, has, dl.Sub(callerDl))
+				if !has {
+					vsched.Fail(fam+"|deadline-lost", "call %d under a context with a deadline: the handler has none", i)
+				} else if dl.Before(callerDl.Add(-time.Millisecond)) || dl.After(callerDl) {
+					vsched.Fail(fam+"|deadline-wrong", "call %d, made %v after the first one under the same context (deadline %v after the first call, no transit time): the handler's deadline differs from the caller's by %v, allowed [-1ms, 0]", i, time.Duration(i)*gap, total, dl.Sub(callerDl))
+				}
+				vsched.Sleep(gap)
+			}
+			vsched.Count("inputs", int64(calls))
 		},
 	}
 }
